@@ -115,7 +115,7 @@ def gen_header(rng):
             'bits': pick_int(rng, 0, U32, (0x1d00ffff, 0x207fffff, 0x1e0377ae)), 'nonce': pick_int(rng, 0, U32)}
 
 
-def gen_block(rng, max_tx=4, big_ok=False, many=False):
+def gen_block(rng, max_tx=4, big_ok=False, many=False, valid_merkle=True):
     """Header + txs; the merkle root is filled in by the caller (needs the reference)."""
     from ref import wire
     h = gen_header(rng)
@@ -127,7 +127,7 @@ def gen_block(rng, max_tx=4, big_ok=False, many=False):
         ntx = rng.randint(0, max_tx)
         txs = [gen_tx(rng, 3, 3, big_ok) for _ in range(ntx)]
     h['txs'] = txs
-    if txs:
+    if txs and (valid_merkle or rng.random() < 0.6):
         h['merkle'] = wire.block_merkle(h).hex()
     return h
 
@@ -187,7 +187,7 @@ def gen_msg(rng, types=None, big_ok=False):
     elif t == 'tx':
         f = {'tx': gen_tx(rng, 3, 3, big_ok)}
     elif t == 'block':
-        f = {'block': gen_block(rng, 3, big_ok)}
+        f = {'block': gen_block(rng, 3, big_ok, valid_merkle=False)}
     elif t in ('ping', 'pong'):
         f = {'nonce': pick_int(rng, 0, 2 ** 64 - 1, (2 ** 63, 2 ** 63 - 1, 2 ** 32))}
     elif t == 'reject':
